@@ -623,6 +623,73 @@ theorem reachable_export_idempotent (n : Bytes) (ops : List KOp) :
     exportXibc (initXibc (exportXibc (ops.foldl applyOp (freshStore n)))) = exportXibc (ops.foldl applyOp (freshStore n)) :=
   export_idempotent (reachable_moduleKeys n ops)
 
+/-! ## the export lists ALL entries of every collection — for collections of any size -/
+
+theorem length_filterMap_of_all_some {α β : Type} (f : α → Option β) (l : List α) (h : ∀ x ∈ l, (f x).isSome = true) :
+    (l.filterMap f).length = l.length := by
+  induction l with
+  | nil => rfl
+  | cons a r ih =>
+    have ha := h a (List.mem_cons_self ..)
+    cases hf : f a with
+    | none => rw [hf] at ha; simp at ha
+    | some b =>
+      simp only [List.filterMap_cons, hf, List.length_cons]
+      rw [ih (fun x hx => h x (List.mem_cons_of_mem _ hx))]
+
+theorem length_iterateHashes {s : Store} (h : ModuleKeys s) {pfx : Bytes}
+    (hpfx : pfx = kAcks ∨ pfx = kCommitments ∨ pfx = kReceipts) :
+    (iterateHashes s pfx).length = (iter s pfx).length := by
+  obtain ⟨_, _, hK⟩ := (moduleKeys_iff s).mp h
+  unfold iterateHashes
+  apply length_filterMap_of_all_some
+  intro kv hkv
+  obtain ⟨hm, hp⟩ := (mem_iter s pfx kv).mp hkv
+  obtain ⟨hok, _⟩ := hashKey_of_prefix (hK kv hm) hp hpfx
+  obtain ⟨a, b, n, hs, hd⟩ := hashKeyOk_spec hok
+  rw [parseHashKey_of_split hs hd]; rfl
+
+theorem length_iterateSeqs_of_all (l : Store) (h : ∀ kv ∈ l, (parsePath kv.1).isSome = true) :
+    (iterateSeqs l).length = l.length := by
+  induction l with
+  | nil => rfl
+  | cons kv r ih =>
+    have h0 := h kv (List.mem_cons_self ..)
+    simp only [iterateSeqs]
+    split
+    · simp only [List.length_cons]
+      rw [ih (fun x hx => h x (List.mem_cons_of_mem _ hx))]
+    · next hn => rw [hn] at h0; simp at h0
+
+/-- **`export_complete`**: the exported genesis lists EVERY entry of every collection, whatever its size — as many
+acknowledgements / commitments / receipts / send sequences / relayers / token pairs / parameters as the store holds under the
+respective prefix (no page size, no limit), every client state (`mem_exportClients`), and — `sub_writes` — every single store entry
+is reproduced by the writes of InitGenesis applied to the export -/
+theorem export_complete {s : Store} (h : ModuleKeys s) :
+    (exportXibc s).packet.acks.length = (iter s kAcks).length ∧
+    (exportXibc s).packet.commits.length = (iter s kCommitments).length ∧
+    (exportXibc s).packet.receipts.length = (iter s kReceipts).length ∧
+    (exportXibc s).packet.seqs.length = (iter s kNextSeq).length ∧
+    (exportXibc s).client.relayers.length = (iter s kRelayers).length ∧
+    (∀ chain cv, (clientKey chain kClientState, cv) ∈ s → slash ∉ chain → (chain, cv) ∈ (exportXibc s).client.clients) ∧
+    (∀ kv, kv ∈ s → kv ∈ xibcWrites (exportXibc s)) := by
+  obtain ⟨_, _, hK⟩ := (moduleKeys_iff s).mp h
+  refine ⟨length_iterateHashes h (Or.inl rfl), length_iterateHashes h (Or.inr (Or.inl rfl)),
+    length_iterateHashes h (Or.inr (Or.inr rfl)), ?_, ?_, ?_, sub_writes h⟩
+  · apply length_iterateSeqs_of_all
+    intro kv hkv
+    obtain ⟨hm, hp⟩ := (mem_iter s kNextSeq kv).mp hkv
+    obtain ⟨a, b, hs⟩ := seqKeyOk_spec (seqKey_of_prefix (hK kv hm) hp).1
+    rw [parsePath_of_split hs]; rfl
+  · simp [exportXibc, exportClientGen, exportRelayers]
+  · intro chain cv hm hn
+    exact mem_exportClients.mpr ⟨hm, hn⟩
+
+/-- the aggregate export lists every stored pair and the parameter export every parameter entry (unconditionally) -/
+theorem export_complete_aggregate (st : AggState) :
+    (exportAggregate st).pairs.length = (iter st.a [1]).length ∧ (exportAggregate st).params = st.p := by
+  simp [exportAggregate, exportAgg, exportParams]
+
 /-! ## `export_idempotent` does need `ModuleKeys` -/
 
 /-- two relayer entries stored under keys that are not their own address (both values carry the empty address): the export
